@@ -5,8 +5,8 @@ def _loom(tier, seed):
 
 SPEC = {
     "custom": _loom,
-    "tie": ["props/C07_tieA.vo"],
-    "gen_items": ["src/vecs/inline.rs + src/bytes/raw.rs:tag arithmetic"],
+    "tie": ["props/C07_tieA.vo", "tie/HandleEquiv.vo"],
+    "gen_items": ["src/vecs/inline.rs + src/bytes/raw.rs:tag arithmetic", "src/bytes/raw/allocated.rs:slice_unchecked + explicit_clone"],
     "tieA_required": True,
  "id": "C07",
  "level": "proof",
